@@ -4,6 +4,7 @@ mod alloc;
 mod e1;
 mod p_xfer;
 mod p_proto;
+mod p_final;
 mod fs;
 mod gen;
 mod pure_codec;
@@ -78,6 +79,18 @@ fn main() {
         "C18" => p_proto::run_c18(&tier, seed, r),
         "C19" => p_proto::run_c19(&tier, seed, r),
         "C20" => p_proto::run_c20(&tier, seed, r),
+        "C04" => p_final::run_c04(&tier, seed, r),
+        "C10" => p_final::run_c10(&tier, seed, r),
+        "C13b" => {
+            let mut rep = report::Report::new();
+            p_final::run_c13b(&mut rep, &tier, seed, r);
+            (p_final::meta_c13b(), rep)
+        }
+        "C17b" => {
+            let mut rep = report::Report::new();
+            p_final::run_c17b(&mut rep, &tier, seed, r);
+            (p_final::meta_c17b(), rep)
+        }
         "C13a" => {
             let mut rep = report::Report::new();
             fs::run_c13a(&mut rep, &tier, seed, r);
